@@ -21,6 +21,7 @@ DECIDED += "; R11 a shim socket is closed in the kernel of the host that owns it
 DECIDED += "; R9 also: an orphaned socket resets only on *new* data (seq == rcv_nxt); R12 Kernel::egress reaps closed sockets on every pass and accept_syn counts the half-open children of the listener's address"
 DECIDED += '; a segment of a live connection never reaches the listener (shared C17-R4)'
 DECIDED += '; R2 also: insert_connection overwrites the index entry; a retransmitted handshake segment carries the original sequence number (shared C06-R13)'
+DECIDED += '; R6 also: every retransmit candidate state is a state segment_all transmits in; the shim forgets no socket handle'
 ASSUMPTIONS = ["an fd with no shim handle and not on a listener's ready queue is closed by nobody (derived from creation sites)"]
 
 STATE = "turmoil_net::kernel::socket::Tcb::state"
